@@ -38,8 +38,10 @@ ASSUMPTIONS = ["bin ids and offsets are unbounded integers in the model (int64/i
                "the chunk iterator of unordered ingestion receives internally sorted chunks or ensure_sorted=True (C06's precondition)",
                "bin tables handed to the producers are valid tilings sorted by chromosome (C20)"]
 RESIDUE = ["HDF5 storage layer (resizable datasets, filters, enum dtype of bins/chrom) is observed, not modelled",
-           "the theorem `ValidCSR is preserved by merge/coarsen/zoomify/unordered ingestion` needs the producer theorems of C06-C09 "
-           "(their streams are strictly sorted, in range, upper triangular); here the producers are covered by the end-to-end validator only"]
+           "the history theorem C02_history_valid covers create / unordered create / merge / coarsen (zoom levels) through the "
+           "producers' MODELS (Model/Merge.v, Model/Coarsen.v, Model/Zoom.v; tied to the code by the correspondence runs of C06-C09); "
+           "create_scool and the text loaders (`cooler load`, `cooler cload pairs`: sanitizers of C05/C16 feeding unordered ingestion) "
+           "are covered by the end-to-end validator only"]
 
 IMPORTS = "From Cooler Require Import Model.Index."
 BLOCKS = list(range(1, 9))
